@@ -28,7 +28,7 @@ type c04RealSpec struct {
 	skipMid bool   // one more stage, with a false condition, between the root and one of the stages
 	inter   bool   // the tasks are declared interactive
 	same    bool   // ONE task (one name, one *task.Task) used by all k stages, told apart by the stage's env
-	where   string // "" the tasks meet in their command; "before" / "after": in that hook of the task, after printing a line
+	where   string // "" the tasks meet in their command; "before" / "after": in that hook of the task, after printing a line; "ctx-up" / "ctx-before" (ctx=own): in the up commands / before hook of each stage's own context
 }
 
 func (s c04RealSpec) line() string {
@@ -96,9 +96,10 @@ func c04RealCase1(col *Collector, s c04RealSpec) {
 			// the hook prints first, then announces itself and waits for the others; on success it leaves met.<name>
 			t = task.FromCommands("true")
 			meet := fmt.Sprintf("echo %s is here; %s; touch %s/met.%s", name, cmd, metDir, name)
-			if s.where == "before" {
+			switch s.where {
+			case "before":
 				t.Before = []string{meet}
-			} else {
+			case "after":
 				t.After = []string{meet}
 			}
 		}
@@ -113,6 +114,16 @@ func c04RealCase1(col *Collector, s c04RealSpec) {
 		case "own":
 			t.Context = "own" + name
 			ctxs[t.Context] = runner.NewExecutionContext(nil, "", variables.NewVariables(), nil, nil, hook, hook)
+			if strings.HasPrefix(s.where, "ctx-") {
+				// the stages meet while their (separate) contexts are being brought up / in the contexts' before hooks
+				meet := fmt.Sprintf("%s; touch %s/met.%s", cmd, metDir, name)
+				t.Before, t.After = nil, nil
+				if s.where == "ctx-up" {
+					ctxs[t.Context] = runner.NewExecutionContext(nil, "", variables.NewVariables(), []string{meet}, nil, nil, nil)
+				} else {
+					ctxs[t.Context] = runner.NewExecutionContext(nil, "", variables.NewVariables(), []string{"true"}, nil, []string{meet}, nil)
+				}
+			}
 		case "mixed":
 			if i%2 == 0 {
 				t.Context = "shared"
@@ -184,6 +195,8 @@ func runC04Real(col *Collector, tier string, seed int64) {
 	specs = append(specs, c04RealSpec{k: 2, ctx: "none", same: true}, c04RealSpec{k: 4, ctx: "shared", same: true, root: true}, c04RealSpec{k: 3, ctx: "none", same: true, inter: true})
 	// the stages meet in a hook of their tasks (which prints a line first) instead of the command
 	specs = append(specs, c04RealSpec{k: 2, ctx: "none", where: "before"}, c04RealSpec{k: 3, ctx: "shared", where: "after", root: true}, c04RealSpec{k: 4, ctx: "own", where: "before", hooks: true})
+	// ... or while their own execution contexts are brought up / in the before hooks of their own contexts
+	specs = append(specs, c04RealSpec{k: 2, ctx: "own", where: "ctx-up"}, c04RealSpec{k: 3, ctx: "own", where: "ctx-before", root: true}, c04RealSpec{k: 3, ctx: "own", where: "ctx-up", root: true})
 	// wider than the number of CPUs: nothing may tie the number of simultaneous commands to it
 	specs = append(specs, c04RealSpec{k: wide, ctx: "none", root: true}, c04RealSpec{k: wide, ctx: "shared", hooks: true})
 	if tier == "thorough" {
